@@ -569,7 +569,7 @@ impl PageLoader {
         let bucket = loop {
             match load.probe_sequence.next(&self.meta_map) {
                 ProbeResult::Tombstone(_) => continue,
-                ProbeResult::Empty(_) => return false,
+                ProbeResult::Empty(_) | ProbeResult::Exhausted => return false,
                 ProbeResult::PossibleHit(bucket) => break BucketIndex(bucket),
             }
         };
@@ -665,6 +665,7 @@ fn allocate_bucket(
         }
         match probe_seq.next(&meta_map) {
             ProbeResult::PossibleHit(_) => continue,
+            ProbeResult::Exhausted => return None,
             ProbeResult::Tombstone(bucket) | ProbeResult::Empty(bucket) => {
                 meta_map.set_full(bucket as usize, probe_seq.hash);
                 return Some(BucketIndex(bucket));
@@ -694,6 +695,8 @@ enum ProbeResult {
     PossibleHit(u64),
     Empty(u64),
     Tombstone(u64),
+    /// Every bucket reachable by this probe sequence has been visited.
+    Exhausted,
 }
 
 impl ProbeSequence {
@@ -709,6 +712,13 @@ impl ProbeSequence {
     // probe until there is a possible hit or an empty bucket is found
     fn next(&mut self, meta_map: &MetaMap) -> ProbeResult {
         loop {
+            // The triangular sequence repeats after at most `2 * len` steps. Having walked the
+            // whole cycle means no reachable bucket is free or matching: give up instead of
+            // spinning forever on a full table.
+            if self.step > 2 * meta_map.len() as u64 {
+                return ProbeResult::Exhausted;
+            }
+
             // Triangular probing
             self.bucket += self.step;
             self.step += 1;
